@@ -617,3 +617,27 @@ DECIMAL = {'decimal': True,
            'src_cts': [0.1, 0.3, 0.7, 1.1, 0.334, 0.9],
            'sink_cts': [0, 0, 0.1, 0.7, 1.3],
            'buffer_delay': [0, 0.1, 0.3, 0.7, 1.1, 2.2, 1 / 3]}
+
+
+def generate_scratch_batches(seed, tie='prng'):
+    """A source whose generator builds every Batch in one scratch list, feeding a PartBatcher that unpacks the
+    whole Batch at once (so the re-use is legal), then a buffer where the re-packed batches wait."""
+    rng = random.Random(core.stable_int('scratch', seed))
+    # every input Batch must be unpacked completely when it is accepted (else re-using the list would be the
+    # caller's mistake): all batches have the batcher's output size, so nothing is ever left in progress
+    n = rng.choice([2, 3, 4])
+    sizes = [n]
+    items = [{'id': 'S1', 'kind': 'source', 'ct': rng.choice([0.5, 1, 1.5]), 'budget': None, 'values': [1, 2.5],
+              'qualities': [1], 'batch': sizes, 'scratch': True},
+             {'id': 'T2', 'kind': 'batcher', 'up': ['S1'], 'size': n},
+             {'id': 'B3', 'kind': 'buffer', 'up': ['T2'], 'cap': rng.choice([n, 2 * n, None]),
+              'delay': rng.choice([0, 0.5, 1])}]
+    prev = 'B3'
+    if rng.random() < 0.5:
+        items.append({'id': 'T4', 'kind': 'batcher', 'up': [prev], 'size': rng.choice([None, 2])})
+        prev = 'T4'
+    items.append({'id': 'P5', 'kind': 'processor', 'up': [prev], 'ct': rng.choice([1, 2, 3.5]), 'res': None,
+                  'wo': {'x': [1, 0, 0], 'y': [0, 0, 0]}})
+    items.append({'id': 'K6', 'kind': 'sink', 'up': ['P5'], 'ct': 0, 'collect': True})
+    return {'resources': {}, 'items': items, 'horizon': [float(rng.choice([20, 30, 40]))], 'tie': tie, 'seed': seed,
+            'max_events': 20000, 'script': [], 'profile': 'scratch_batches'}
